@@ -92,15 +92,15 @@ def _stratified(seq, n, rnd, k=3):
 
 # (family, max statements, sample size quick, sample size thorough, decoration variants, decorator options); None = all
 FAMILY_PLAN = [
-    ('exc', 5, 300, None, 1, {}), ('exc', 6, 0, 2000, 1, {}),
-    ('loop', 5, 300, 2500, 1, {}), ('loop', 6, 0, 2000, 1, {}),
-    ('loopexc', 5, 250, 2500, 1, {}),
-    ('ctx', 5, 200, 1500, 1, {}),
-    ('nestedtry', 6, 400, None, 2, dict(balanced_exc=True)), ('nestedtry', 7, 0, 2000, 1, dict(balanced_exc=True)),
+    ('exc', 5, 300, None, 1, {}), ('exc', 6, 0, 1000, 1, {}),
+    ('loop', 5, 300, 1200, 1, {}), ('loop', 6, 0, 1000, 1, {}),
+    ('loopexc', 5, 250, 1200, 1, {}),
+    ('ctx', 5, 200, 800, 1, {}),
+    ('nestedtry', 6, 400, None, 1, dict(balanced_exc=True)), ('nestedtry', 7, 0, 1000, 1, dict(balanced_exc=True)),
     ('tryfin', 6, 200, None, 1, dict(balanced_exc=True)),
-    ('tryret', 7, 800, 3000, 1, {}),
-    ('finnest', 7, 250, 2500, 1, dict(balanced_exc=True)),
-    ('tryelse', 5, 300, 2500, 1, dict(balanced_exc=True)),
+    ('tryret', 7, 800, 2000, 1, {}),
+    ('finnest', 7, 250, 1000, 1, dict(balanced_exc=True)),
+    ('tryelse', 5, 300, 1000, 1, dict(balanced_exc=True)),
 ]
 
 
@@ -137,25 +137,25 @@ def program_set(tier, seed, loop_else=False, globfns=True):
     if quick:
         sk = _sample(sk, 500, rnd)
     progs += skeleton.decorated(sk, 1 if quick else 2, seed + 1, closure_bias=True)
-    nrand = 200 if quick else 3000
+    nrand = 200 if quick else 1500
     progs += mprun.random_programs(nrand, seed, lo=2, hi=3 if quick else 4, maxdepth=3, loop_else=loop_else)
     progs += mprun.random_programs(nrand // 2, seed + 7, lo=2, hi=4, maxdepth=3, loop_else=loop_else, with_=False, calls=False,
                                    dele=False, exprstmt=False)      # exception / jump focused
     if mp.CONTEXTS:     # lambdas kept in variables and called later, in and around compound statements
-        progs += mprun.random_programs(200 if quick else 1500, seed + 13, lo=2, hi=4, maxdepth=3, loop_else=loop_else, lam_rate=0.25,
+        progs += mprun.random_programs(200 if quick else 800, seed + 13, lo=2, hi=4, maxdepth=3, loop_else=loop_else, lam_rate=0.25,
                                        try_=False, with_=False, dele=False, hnames=False)
     # nested functions that read and rebind the enclosing function's variables, defined and called in and around compound statements
-    progs += mprun.random_programs(200 if quick else 1500, seed + 17, lo=2, hi=4, maxdepth=3, loop_else=loop_else, def_rate=0.12,
+    progs += mprun.random_programs(200 if quick else 800, seed + 17, lo=2, hi=4, maxdepth=3, loop_else=loop_else, def_rate=0.12,
                                    call_rate=0.25, closure_bias=True, with_=False, dele=False, hnames=False)
     if globfns:     # module-level functions called (and converted recursively, or run unconverted) from the function under test
-        progs += mprun.random_programs(150 if quick else 1500, seed + 19, lo=2, hi=4, maxdepth=3, loop_else=loop_else, globfns=2,
+        progs += mprun.random_programs(150 if quick else 800, seed + 19, lo=2, hi=4, maxdepth=3, loop_else=loop_else, globfns=2,
                                        call_rate=0.3)
     # list state in and around try / loop / branch bodies (replayed under the LISTS feature as well)
-    progs += mprun.random_programs(200 if quick else 1500, seed + 23, lo=2, hi=4, maxdepth=3, loop_else=loop_else, list_rate=1.0,
+    progs += mprun.random_programs(200 if quick else 800, seed + 23, lo=2, hi=4, maxdepth=3, loop_else=loop_else, list_rate=1.0,
                                    list_stmt_rate=0.3, calls=False, with_=False, dele=False, hnames=False)
     # the pure profile (ints, arithmetic, augmented and tuple assignment, counted loops, closures, attribute state): every
     # input tuple over 0..IntMax is explored
-    progs += [mp.gen_pure(seed * 100003 + 70000 + i, maxdepth=3) for i in range(80 if quick else 800)]
+    progs += [mp.gen_pure(seed * 100003 + 70000 + i, maxdepth=3) for i in range(80 if quick else 400)]
     # very large random programs add cost, not shapes
     progs = [p for p in progs if len(p['nodes']) <= (60 if any(f['parent'] == 0 for f in p['fns'][1:]) else 45)]
     return progs, tlcs
